@@ -145,8 +145,11 @@ CLAIMED = {
              "chunk processor are the signed digits of the arithmetic recoding, no carry left, for every 2<=c<=64 and canonical "
              "scalar; assembled: msmInner (partitionScalars + bucket method per chunk with the smaller last bucket array + "
              "combination, first chunk split or not) = sum_i s_i P_i for every 2<=c<=64, every point list and canonical scalars. "
-             "PARTIAL: the cost-model choice of c / number of splits (any choice is correct by the theorems) and "
-             "the Montgomery flag are tied by correspondence "
+             "MultiExp as a whole: for every window, every split count k>=1 and slice length, every completion order of the "
+             "goroutines, either first-chunk mode, the sum of the partial results is sum_i s_i P_i; the window/split loop "
+             "terminates within log2(NbTasks)+1 rounds and only picks implemented windows. "
+             "PARTIAL: bestC's float arithmetic is modelled on exact rationals and not observable (theorems hold for every "
+             "choice); the Montgomery flag is tied by correspondence "
              "only (MultiExp/MultiScalar for sizes 0..4096 x task counts, each implemented c with and without first-chunk "
              "split and partitionScalars' packed limbs through hooks, watchdog for termination).",
         note="Group laws of Banderwagon are a premise (C08); Montgomery conversion of scalars is compared, not proved.",
